@@ -541,6 +541,8 @@ def cases(ck):
             for g in (None, 0, 1, 2)]
     if not ck.thorough:
         grid = rng.sample(grid, 900)
+    else:
+        grid = grid * 4          # every grid point with four different LLC / DID / NAD / acm draws
     for brs, lri, lrt, rwt, g in grid:
         I, T = gen_llc(rng), gen_llc(rng)
         I.update(gen_dep(rng))
@@ -553,7 +555,7 @@ def cases(ck):
         nad = rng.choice([None, None, None, 1, 0, 255])
         out.append(("dep-grid", new_case(rng, "direct", I, T, given=g, did=did, nad=nad)))
     # B. connect() entry: option pass-through, search order, clamping of out-of-range values, defaults
-    nb = 3000 if ck.thorough else 600
+    nb = 8000 if ck.thorough else 600
     for k in range(nb):
         I, T = gen_llc(rng, valid=k % 3 != 0), gen_llc(rng, valid=k % 3 != 1)
         I.update(gen_dep(rng, wild=k % 2 == 0))
@@ -637,6 +639,7 @@ def run(ck):
                 if len(ck.samples) < 3 and both else None)
         if both:
             ck.count("found:" + r.air.wire[0][1] + "->" + r.mac_i.target.brty)
+            ck.count("mode:" + ("active" if r.mac_t.acm else "passive") + ":" + case["entry"])
         if r.air.anomalies:
             ck.fail("air-anomaly", "; ".join(r.air.anomalies[:3]), {"case": case})
         lines.append(request_line(case))
@@ -649,8 +652,8 @@ def run(ck):
             dis += 1
             ck.fail("tie:activate", "two real stacks: %s ; model: %s" % (real, rep), {"request": line, "case": case})
     ck.tie("activate", len(lines), dis, exhaustive=False)
-    ngrid = sum(1 for b, _ in todo if b == "dep-grid")
-    ck.notes.append("pair activations: %d (dep-grid %d of 2880 = brs 0..2 x lri 0..3 x lrt 0..3 x rwt 0..14 x start "
+    ngrid = len(set((c["I"]["brs"], c["I"]["lri"], c["T"]["lrt"], c["T"]["rwt"], c["given"]) for b, c in todo if b == "dep-grid"))
+    ck.notes.append("pair activations: %d (dep-grid %d distinct points of 2880 = brs 0..2 x lri 0..3 x lrt 0..3 x rwt 0..14 x start "
                     "technology {search,106A,212F,424F}; connect %d; llc-grid %d of 1152 = 2 sides x miu(6) x lto(6) x "
                     "lsc(4) x sec(2) x services(2); edge %d); stalls %d"
                     % (len(todo), ngrid, sum(1 for b, _ in todo if b == "connect"),
